@@ -137,3 +137,14 @@ package keeper
 //@   flag prune
 //@   ensures[C10.up.assets] isMainnet(unwrap_ctx(ctx)) && k.authority != old(params.Authority) ==>
 //@        err != nil && state(unwrap_ctx(ctx)) == old(state(unwrap_ctx(ctx)))
+
+// registration of a staking asset: refused (without any effect) for more than MaxDecimal decimals, a negative total or an
+// asset id that already exists
+//@ define assetIDStr(chain, addr) = ite(addr == "", "", joinsep("_", tolower(addr), hexu64(chain)))
+//@ func (Keeper).SetStakingAssetInfo
+//@   requires info != nil && !isnil(info.StakingTotalAmount)
+//@   modifies store(ctx, "assets")
+//@   ensures[C09.ssai.atomic] err != nil ==> state(ctx) == old(state(ctx))
+//@   ensures[C09.ssai.err] (err != nil) <==> (info.AssetBasicInfo.Decimals > g("x/assets/types.MaxDecimal") || val(info.StakingTotalAmount) < 0 ||
+//@        old(assetRaw(ctx, assetIDStr(info.AssetBasicInfo.LayerZeroChainID, info.AssetBasicInfo.Address))) != nil)
+
